@@ -326,6 +326,8 @@ func lockProgram(fd *ast.FuncDecl, mutex string, callees map[string]bool) ([]str
 					} else if id, ok := sel.X.(*ast.Ident); ok && fd.Recv != nil && len(fd.Recv.List[0].Names) == 1 &&
 						id.Name == fd.Recv.List[0].Names[0].Name && callees[sel.Sel.Name] {
 						prog = append(prog, "call:"+sel.Sel.Name)
+					} else if inner, ok := sel.X.(*ast.SelectorExpr); ok && callees[inner.Sel.Name+"."+sel.Sel.Name] {
+						prog = append(prog, "call:"+inner.Sel.Name+"."+sel.Sel.Name)
 					}
 				}
 			}
@@ -357,7 +359,7 @@ func main() {
 	if len(os.Args) > 2 {
 		outPath = os.Args[2]
 	}
-	for _, f := range []string{"spanfile.go", "freemap.go", "collection.go", "lshtree.go", "quantization.go", "dump.go", "rest.go", "main.go",
+	for _, f := range []string{"spanfile.go", "freemap.go", "collection.go", "lshtree.go", "quantization.go", "dump.go", "rest.go", "main.go", "settings.go",
 		"query/lexer.go", "query/parser.go", "query/compiler.go", "query/query.go"} {
 		load(repo, f)
 	}
@@ -721,6 +723,10 @@ func main() {
 		for _, n := range names {
 			callees[n] = true
 		}
+		sfNames := []string{"WriteRecord", "RemoveRecord", "ReadRecord", "Close", "IterateRecords", "IterateSortedRecords", "GetStats"}
+		for _, n := range sfNames {
+			callees["spanfile."+n] = true
+		}
 		var progs []string
 		okl := true
 		for _, n := range names {
@@ -732,7 +738,66 @@ func main() {
 			}
 			progs = append(progs, n+":"+strings.Join(p, ","))
 		}
+		for _, n := range sfNames {
+			fd := method("spanfile.go", "SpanFile", n)
+			p, ok := lockProgram(fd, "fileMutex", map[string]bool{})
+			if !ok {
+				okl = false
+				continue
+			}
+			progs = append(progs, "spanfile."+n+":"+strings.Join(p, ","))
+		}
 		emitStrList("collectionLockPrograms", progs, okl)
+		// the same table in numeric form: per method a list of (kind, lock, callee)
+		// kind: 0 RLock, 1 Lock, 2 RUnlock, 3 Unlock, 4 call; lock: 0 Collection.mutex, 1 SpanFile.fileMutex
+		{
+			var mnames []string
+			index := map[string]int{}
+			for _, pr := range progs {
+				n := pr[:strings.Index(pr, ":")]
+				index[n] = len(mnames)
+				mnames = append(mnames, n)
+			}
+			var rows []string
+			for _, pr := range progs {
+				n := pr[:strings.Index(pr, ":")]
+				body := pr[strings.Index(pr, ":")+1:]
+				lock := 0
+				if strings.HasPrefix(n, "spanfile.") {
+					lock = 1
+				}
+				var toks []string
+				if body != "" {
+					for _, t := range strings.Split(body, ",") {
+						switch {
+						case t == "RLock":
+							toks = append(toks, fmt.Sprintf("(0, %d, 0)", lock))
+						case t == "Lock":
+							toks = append(toks, fmt.Sprintf("(1, %d, 0)", lock))
+						case t == "RUnlock":
+							toks = append(toks, fmt.Sprintf("(2, %d, 0)", lock))
+						case t == "Unlock":
+							toks = append(toks, fmt.Sprintf("(3, %d, 0)", lock))
+						case strings.HasPrefix(t, "call:"):
+							toks = append(toks, fmt.Sprintf("(4, 0, %d)", index[strings.TrimPrefix(t, "call:")]))
+						}
+					}
+				}
+				rows = append(rows, "["+strings.Join(toks, ", ")+"]")
+			}
+			emitStrList("lockMethodNames", mnames, okl)
+			if okl {
+				fmt.Fprintf(&out, "def lockTable : Option (List (List (Nat × Nat × Nat))) := some [%s]\n", strings.Join(rows, ", "))
+			} else {
+				fmt.Fprintf(&out, "def lockTable : Option (List (List (Nat × Nat × Nat))) := none\n")
+			}
+		}
+		// does the tree's random source synchronise its methods?
+		rndLocked := uint64(0)
+		if fd := method("settings.go", "myRandomType", "Intn"); fd != nil && strings.Contains(src(fd.Body), "Lock()") {
+			rndLocked = 1
+		}
+		emitNat("treeRandSynchronised", rndLocked, true)
 		// shared random source in addPoint goroutines
 		rnd := ""
 		if fd := funcDecl("lshtree.go", "newLSHTree"); fd != nil {
